@@ -23,6 +23,7 @@
 import Lemmas.ExportThm
 import Lemmas.ExportFilter
 import Lemmas.GoSlice
+import Lemmas.ExportReplay
 namespace C09
 open Export
 
@@ -247,6 +248,54 @@ theorem inbound_cluster_id_counterexample :
     16843009 ∈ clusterList cxReflected ∧ inboundReject cxRR 65000 0 true cxReflected = false := by
   constructor <;> decide
 
+/-! ### 5b. … and stay unused: the stored Adj-RIB-In entry and later replays of it
+
+  `runIn` is the Adj-RIB-In of one peer after any sequence of announcements and withdrawals
+  (handleUpdate marks the received path itself, adjRibIn.Update stores it); `replayList` is what
+  softResetIn (PathList(families, accepted)) and StaleAll hand to the Loc-RIB again. -/
+
+/-- After ANY history of UPDATEs, every stored entry is marked rejected exactly when its route fails
+    an inbound loop check — so the accepted listing and the accepted counter leave it out. -/
+theorem stored_loop_marked (g : Global) (localAS allowOwnAS : Nat) (isIBGP : Bool) (evs : List InEv) :
+    (∀ e ∈ runIn g localAS allowOwnAS isIBGP evs,
+        e.rejected = inboundReject g localAS allowOwnAS isIBGP e.path) ∧
+    acceptedCount (runIn g localAS allowOwnAS isIBGP evs) =
+      ((runIn g localAS allowOwnAS isIBGP evs).filter
+        (fun e => !inboundReject g localAS allowOwnAS isIBGP e.path)).length := by
+  have hm := marked_run g localAS allowOwnAS isIBGP evs
+  refine ⟨hm, ?_⟩
+  unfold acceptedCount replayList
+  congr 1
+  apply List.filter_congr
+  intro e he
+  rw [hm e he]
+
+/-- After ANY history, no later replay of the stored state (soft reset in, a policy change followed
+    by one, StaleAll under graceful restart) hands a route that fails an inbound loop check to the
+    Loc-RIB: everything replayed passes both checks. -/
+theorem replay_never_uses_looped (g : Global) (localAS allowOwnAS : Nat) (isIBGP : Bool) (evs : List InEv) :
+    ∀ e ∈ replayList (runIn g localAS allowOwnAS isIBGP evs),
+      inboundReject g localAS allowOwnAS isIBGP e.path = false := by
+  intro e he
+  have hm := marked_run g localAS allowOwnAS isIBGP evs
+  have h1 := List.mem_filter.1 he
+  have := hm e h1.1
+  have hr : e.rejected = false := by simpa using h1.2
+  rw [← this, hr]
+
+/-- … in particular a route whose AS_PATH holds the local AS (or the confederation identifier) more
+    often than allow-own-as, in whatever segment types, is in no replay. -/
+theorem replay_excludes_own_as_loop (g : Global) (localAS allowOwnAS : Nat) (isIBGP : Bool) (evs : List InEv)
+    (e : AdjIn) (he : e ∈ replayList (runIn g localAS allowOwnAS isIBGP evs)) (segs : List Seg)
+    (hs : getAsPath e.path = some segs) :
+    (allAS segs).count localAS +
+      (if g.confedEnabled && g.confedId != localAS then (allAS segs).count g.confedId else 0) ≤ allowOwnAS := by
+  have h := replay_never_uses_looped g localAS allowOwnAS isIBGP evs e he
+  by_cases hc : (allAS segs).count localAS +
+      (if g.confedEnabled && g.confedId != localAS then (allAS segs).count g.confedId else 0) > allowOwnAS
+  · rw [(inbound_loop_rejected g localAS allowOwnAS isIBGP e.path).1 segs hs hc] at h; cases h
+  · omega
+
 /-! ## 6. the stored route -/
 
 /-- Model level: the peer's copy is a fresh node whose parent chain is the stored path, node for
@@ -358,5 +407,8 @@ example : (clusterList exRoute).contains ({ exIbgpRR with clusterId := 5 } : Pee
 example : getAsPath exRoute = some [⟨2, [300, 64512]⟩, ⟨3, [65001]⟩] ∧
     (allAS [⟨2, [300, 64512]⟩, ⟨3, [65001]⟩]).count 300 + 0 > 0 := by decide
 example : originatorId exRoute = (⟨4, 8⟩ : Addr) := by decide
+-- stored_loop_marked / replay_*: a history with a clean and a looped announcement: only the clean one is replayed
+example : (replayList (runIn exG 300 0 false [.ann 1 exRoute, .ann 2 cxRoute])).map (·.key) = [2] ∧
+    (runIn exG 300 0 false [.ann 1 exRoute, .ann 2 cxRoute]).map (·.rejected) = [true, false] := by decide
 
 end C09
